@@ -98,8 +98,16 @@ def gen_tree(rng, depth):
         items = [gen_tree(rng, depth - 1) for _ in range(n)]
         toks = ["("] + [t for it in items for t in it[0]]
         can = "(" + " ".join(it[1] for it in items)
-        if n > 0 and rng.random() < 0.2:
-            tail_src, tail_can = atom(rng) if rng.random() < 0.7 else vec(rng, depth - 1)
+        if n > 0 and rng.random() < 0.3:
+            k = rng.random()
+            if k < 0.3:
+                # the tail is itself a proper list (or the empty list): (a . (b c)) IS (a b c)
+                m = rng.randrange(0, 3)
+                more = [gen_tree(rng, depth - 1) for _ in range(m)]
+                toks += [".", "("] + [t for it in more for t in it[0]] + [")"]
+                can += "".join(" " + it[1] for it in more)
+                return toks + [")"], can + ")"
+            tail_src, tail_can = atom(rng) if k < 0.8 else vec(rng, depth - 1)
             if isinstance(tail_src, str):
                 tail_src = [tail_src]
             toks += ["."] + tail_src
